@@ -535,6 +535,20 @@ void findAllVariablesWithEquivalences(const ComponentPtr &component, VariablePtr
 Strings split(const std::string &content, const std::string &delimiter = ";");
 
 /**
+ * @brief Test whether the definition of the given units depends on itself.
+ *
+ * Follows the units references of @p units within its model, and through resolved
+ * imports, and reports whether a units that is being followed is met again.  The
+ * functions that reduce units recursively consult this test first: units with a
+ * cyclic definition are treated like undefined units.
+ *
+ * @param units The units to test.
+ *
+ * @return @c true if the definition of @p units is cyclic, @c false otherwise.
+ */
+bool hasUnitsCycle(const UnitsConstPtr &units);
+
+/**
  * @brief Trim whitespace from the front of a string (in place).
  *
  * Remove whitespace from the front of a string, modifying the passed string.
